@@ -203,7 +203,7 @@ pub fn run(ctx: &Ctx) -> Report {
     );
 
     // (3)
-    let out = run_random(ctx.seed, ctx.tier.pick(400_000, 20_000_000), 400, decode_random, check);
+    let out = run_random(ctx.seed, ctx.tier.pick(2_000_000, 30_000_000), 400, decode_random, check);
     rep.absorb(out);
     for s in [
         "LF consumed in BeforeAttrValue",
